@@ -76,6 +76,8 @@ def verify_function(qualname: str, contract: Contract) -> FunctionReport:
     ex = Executor(run, contract, qualname, node, modname)
     path = Path(run)
     path.assume(path.hget("ghost.alloc") >= FIRST_ADDR)
+    _o = z3.Const("o!ll0", Int)
+    path.assume(z3.ForAll([_o], z3.Select(path.hget("list.len"), _o) >= 0, patterns=[z3.Select(path.hget("list.len"), _o)]))
     vals = {}
     for n, t in contract.params:
         nm = n.lstrip("*")
